@@ -462,9 +462,9 @@ def all_guard_functions(P):
     return res
 
 
-def run_v9(chk, P):
-    r = chk.rule('V9', 'every parameter guard confirmed on the reference tree (function, mode/algorithm context, canonical '
-                       'condition, error code) is still present', floor=2000)
+def run_v9(chk, P, rid='V9', select=None, floor=2000):
+    r = chk.rule(rid, 'every parameter guard confirmed on the reference tree (function, mode/algorithm context, canonical '
+                      'condition, error code) is still present' + (' [queue and burst functions]' if select else ''), floor=floor)
     if not os.path.exists(BASELINE):
         chk.broken('guard baseline missing (imbv/data/guards_baseline.json)')
         return
@@ -475,6 +475,8 @@ def run_v9(chk, P):
     reported = set()
     for key, tl in sorted(base['functions'].items()):
         tu, fn = key.split('::')
+        if select is not None and not select(fn):
+            continue
         if tu not in P.facts:
             r.note('TU %s of the baseline is not built now' % tu)
             continue
